@@ -2325,6 +2325,12 @@ def _extract_block(body_toks, frm, to, a, rep):
         if ob >= len(body_toks) or body_toks[ob].text != "{":
             raise AnchorLost(f"block_closure {a['block_closure']!r}: the closure body is not a block")
         cb = match_close(body_toks, ob)
+        if a.get("block_until"):
+            # ... up to (excluding) the statement of the closure body that holds this anchor
+            hu = [h for h in _find_seq_any(body_toks, pat_tokens(a["block_until"])) if ob < h[0] < cb]
+            if not hu:
+                raise AnchorLost(f"block_until {a['block_until']!r}: no match inside the closure body")
+            cb = _stmt_start_before(body_toks, hu[0][0], 1)
         rep.append(("R0", f"inline block: body of the closure `{a['block_closure'][:60]}` wrapped as `{a['wrap']}`"))
         tail = a.get("tail", "")
         return [T(PUNCT, "{"), T(WS, "\n")] + body_toks[ob + 1:cb] + [T("raw", "\n" + tail + "\n"), T(PUNCT, "}")]
